@@ -325,19 +325,22 @@ def gen_program(rng, nstmts=12, max_q=5, measure_p=0.0, if_p=0.0, reset_p=0.0, g
     # gate definitions (nested: later ones may call earlier ones)
     gnames = ["g1", "mygate", "rot", "bell", "x"]   # "x" shadows a built-in
     rng.shuffle(gnames)
-    for gi in range(rng.randint(0, gate_defs)):
+    def gate_def(gname):
         nr = rng.randint(1, 3); npar = rng.randint(0, 3)
         regs = ["a", "b", "cc"][:nr]
         params = rng.sample(["theta", "phi", "lam", "pi"], npar) if rng.random() < 0.2 else ["theta", "phi", "lam"][:npar]
         body = []
         formal_qs = [("r", x) for x in regs]
-        sub = Layout(); sub.gates = [g for g in lay.gates if g[0] != gnames[gi]]
+        sub = Layout(); sub.gates = [g for g in lay.gates if g[0] != gname]
         for _ in range(rng.randint(0, 4)):
             st = gen_gate_stmt(rng, sub, qubits=formal_qs, vars_=tuple(params), depth=2)
-            if st and st[1] != gnames[gi]:
+            if st and st[1] != gname:
                 body.append(st)
-        nodes.append(("gate", gnames[gi], regs, params, body))
-        lay.gates.append((gnames[gi], nr, npar))
+        lay.gates.append((gname, nr, npar))
+        return ("gate", gname, regs, params, body)
+
+    for gi in range(rng.randint(0, gate_defs)):
+        nodes.append(gate_def(gnames[gi]))
     for _ in range(nstmts):
         if rng.random() < late_p:
             # a declaration in the middle of the program (registers / gates declared by a later chunk)
@@ -353,8 +356,8 @@ def gen_program(rng, nstmts=12, max_q=5, measure_p=0.0, if_p=0.0, reset_p=0.0, g
             elif kind == "gate":
                 free = [g for g in gnames if g not in [x[0] for x in lay.gates]]
                 if free:
-                    nodes.append(("gate", free[0], ["a"], [], [("apply", "h", [("r", "a")], [])]))
-                    lay.gates.append((free[0], 1, 0))
+                    # (its body may call the gates defined so far: nested definitions across chunks)
+                    nodes.append(gate_def(free[0]))
             continue
         r = rng.random()
         if r < measure_p and lay.nc():
